@@ -4,6 +4,8 @@ import (
 	"bufio"
 	"encoding/json"
 	"fmt"
+	"go/types"
+	"golang.org/x/tools/go/ssa"
 	"os"
 	"path/filepath"
 	"sort"
@@ -125,6 +127,28 @@ func runCheck(repo, prop, tier string, opts SolveOpts) int {
 			}
 			items = append(items, c)
 		}
+	}
+	// a contract on a func-typed struct field is an obligation on every function stored into that field
+	var fieldErrs []string
+	for _, c := range append([]*Contract{}, items...) {
+		if c.Kind != "field" {
+			continue
+		}
+		impls, err := eng.fieldImplementers(c)
+		if err != nil {
+			fieldErrs = append(fieldErrs, err.Error())
+			continue
+		}
+		for _, f := range impls {
+			d := *c
+			d.Kind = "func"
+			d.Fn = f
+			d.Name = f.String() + " (as " + shortName(c.Name) + ")"
+			items = append(items, &d)
+		}
+	}
+	if len(fieldErrs) > 0 {
+		return fail("field contract: " + strings.Join(fieldErrs, "; "))
 	}
 	if len(items) == 0 {
 		return fail("no contract carries property " + prop)
@@ -351,6 +375,80 @@ func verifyIfaceContract(eng *Engine, c *Contract, opts SolveOpts) *FuncResult {
 	vc := newVC(eng, nil, c)
 	vc.entry = &State{guard: TTrue, base: "0"}
 	return &FuncResult{Name: shortName(c.Name), Con: c, VC: vc}
+}
+
+// fieldImplementers: the functions stored anywhere in the module into the func-typed field a field contract is attached to.
+// A store of anything but a named top-level function (a closure, a parameter, ...) makes the contract undecidable here: error.
+func (eng *Engine) fieldImplementers(c *Contract) ([]*ssa.Function, error) {
+	return eng.fieldImplsByKey(c.Name)
+}
+
+var fieldImplMu sync.Mutex
+
+func (eng *Engine) fieldImplsByKey(fieldKey string) ([]*ssa.Function, error) {
+	fieldImplMu.Lock()
+	defer fieldImplMu.Unlock()
+	if eng.fieldImplCache == nil {
+		eng.fieldImplCache = map[string][]*ssa.Function{}
+		eng.fieldImplErr = map[string]error{}
+	}
+	if r, ok := eng.fieldImplCache[fieldKey]; ok {
+		return r, eng.fieldImplErr[fieldKey]
+	}
+	r, err := eng.fieldImplsScan(fieldKey)
+	eng.fieldImplCache[fieldKey] = r
+	eng.fieldImplErr[fieldKey] = err
+	return r, err
+}
+
+func (eng *Engine) fieldImplsScan(fieldKey string) ([]*ssa.Function, error) {
+	seen := map[*ssa.Function]bool{}
+	var out []*ssa.Function
+	for _, fn := range eng.AllFuncs {
+		for _, b := range fn.Blocks {
+			for _, in := range b.Instrs {
+				st, ok := in.(*ssa.Store)
+				if !ok {
+					continue
+				}
+				fa, ok := st.Addr.(*ssa.FieldAddr)
+				if !ok {
+					continue
+				}
+				pt, ok := fa.X.Type().Underlying().(*types.Pointer)
+				if !ok {
+					continue
+				}
+				nt, ok := pt.Elem().(*types.Named)
+				if !ok {
+					continue
+				}
+				stt, ok := nt.Underlying().(*types.Struct)
+				if !ok || nt.Obj().Pkg() == nil {
+					continue
+				}
+				key := nt.Obj().Pkg().Path() + "." + nt.Obj().Name() + "." + stt.Field(fa.Field).Name()
+				if key != fieldKey {
+					continue
+				}
+				f, ok := st.Val.(*ssa.Function)
+				if !ok {
+					if cst, isC := st.Val.(*ssa.Const); isC && cst.IsNil() {
+						continue
+					}
+					return nil, fmt.Errorf("%s: a value that is not a named function is stored into the field in %s", shortName(fieldKey), shortFuncName(fn))
+				}
+				if !seen[f] {
+					seen[f] = true
+					out = append(out, f)
+				}
+			}
+		}
+	}
+	if len(out) == 0 {
+		return nil, fmt.Errorf("%s: no function is ever stored into the field", shortName(fieldKey))
+	}
+	return out, nil
 }
 
 // addBounded is the hook for bounded stand-ins (never counted as discharged obligations).
